@@ -23,11 +23,13 @@ type WalkOpts struct {
 	NoSysDest     bool // keep the system account out as a transfer destination (T7)
 	MeasureAll    bool
 	RecordPayable bool
+	Reconfigure   bool // gas schedule changes and epoch notifications among the steps
 	OnLeg         func(u *gen.Universe, m *Mon, l *node.Leg)
 	Setup         func(u *gen.Universe, m *Mon)
 }
 
 type Walk struct {
+	seen    []*node.Message // destination-form messages seen so far (material for forgeries)
 	U       *gen.Universe
 	M       *Mon
 	R       *harness.Rand
@@ -36,7 +38,8 @@ type Walk struct {
 	handing map[string]bool
 }
 
-var amountsPool = []*big.Int{big.NewInt(1), big.NewInt(2), big.NewInt(7), big.NewInt(50), big.NewInt(1000), gen.Pow2(64), new(big.Int).Add(gen.Pow2(70), big.NewInt(12345))}
+var amountsPool = []*big.Int{big.NewInt(1), big.NewInt(2), big.NewInt(7), big.NewInt(50), big.NewInt(1000), gen.Pow2(64), new(big.Int).Add(gen.Pow2(70), big.NewInt(12345)),
+	big.NewInt(255), big.NewInt(256), new(big.Int).Sub(gen.Pow2(63), big.NewInt(1)), gen.Pow2(63), new(big.Int).Sub(gen.Pow2(64), big.NewInt(1)), new(big.Int).Add(gen.Pow2(64), big.NewInt(1)), gen.Pow2(128)}
 
 func NewWalk(r *harness.Rand, rep *harness.Reporter, o WalkOpts, enabled ...string) *Walk {
 	if o.Shards == 0 {
@@ -56,6 +59,13 @@ func NewWalk(r *harness.Rand, rep *harness.Reporter, o WalkOpts, enabled ...stri
 	if o.OnLeg != nil {
 		u.N.Observers = append(u.N.Observers, func(n *node.Node, l *node.Leg) { o.OnLeg(u, m, l) })
 	}
+	u.N.Observers = append(u.N.Observers, func(n *node.Node, l *node.Leg) {
+		for _, e := range l.Emitted {
+			if e.Kind == node.MsgContinuation && len(w.seen) < 64 {
+				w.seen = append(w.seen, e)
+			}
+		}
+	})
 	w.setup()
 	if o.Setup != nil {
 		o.Setup(u, m)
@@ -83,6 +93,17 @@ func (w *Walk) setup() {
 	gen.Must(u.SetRoles(nftCreator, u.Tokens[3].ID, RoleCreate, RoleNFTBurn, RoleAddURI, RoleUpdAttr), "roles")
 	w.creator[string(u.Tokens[2].ID)] = sftCreator
 	w.creator[string(u.Tokens[3].ID)] = nftCreator
+	if r.Chance(35) {
+		// counters far from zero (storage and shadow alike), so that multi-byte nonces and the
+		// 8/16/32/63-bit boundaries are crossed by ordinary creates
+		for ti, who := range [][]byte{sftCreator, nftCreator} {
+			v := []uint64{254, 65534, 1<<32 - 2, 1<<63 - 2, 1<<63 + 7}[r.Intn(5)]
+			tok := u.Tokens[2+ti].ID
+			u.W.Account(who).Poke([]byte(node.NoncePrefix+string(tok)), gen.U64(v))
+			w.M.S.Counter[rkey{string(who), string(tok)}] = v
+			w.M.S.MaxIssued[string(tok)] = v
+		}
+	}
 	for i := 0; i < 2+r.Intn(3); i++ {
 		w.opCreate()
 	}
@@ -130,6 +151,12 @@ func (w *Walk) opCreate() *node.Leg {
 
 func (w *Walk) pickAmount(bal *big.Int) *big.Int {
 	r := w.R
+	if r.Chance(15) {
+		a := amountsPool[r.Intn(len(amountsPool))]
+		if a.Cmp(bal) <= 0 || r.Chance(20) {
+			return new(big.Int).Set(a)
+		}
+	}
 	switch r.Intn(10) {
 	case 0:
 		return new(big.Int).Set(bal)
@@ -585,11 +612,59 @@ func (w *Walk) opHostile() *node.Leg {
 	return u.N.Exec(c)
 }
 
+// reconfigure: a gas schedule change (valid or with a zero / missing entry) or an epoch
+// notification at or above the activation epoch.
+func (w *Walk) reconfigure() {
+	r := w.R
+	if r.Bool() {
+		m := world.GasMapFrom(func(_, _ string, i int) uint64 { return 50 + uint64(r.Intn(400))*3 + uint64(i) })
+		if r.Chance(30) {
+			delete(m[vmcommon.BuiltInCostString], "ESDTTransfer")
+		} else if r.Chance(20) {
+			m[vmcommon.BaseOperationCostString]["StorePerByte"] = 0
+		}
+		w.U.W.GasScheduleChange(m)
+	} else {
+		w.U.W.ConfirmEpoch(w.U.W.Cfg.ActivationEpoch + uint32(r.Intn(3)))
+	}
+}
+
+// opForge: the adversary submits, as its own transaction, the destination-form data of a message
+// it has seen (what only the protocol may deliver with no sender account): the credit-only leg
+// must not be reachable from a transaction.
+func (w *Walk) opForge() *node.Leg {
+	u, r := w.U, w.R
+	if len(w.seen) == 0 {
+		return nil
+	}
+	m := w.seen[r.Intn(len(w.seen))]
+	caller := u.Pick(u.Actors)
+	rcv := m.To
+	if r.Chance(50) {
+		rcv = w.pickDest(caller)
+	}
+	if bytes.Equal(rcv, caller) {
+		return nil
+	}
+	args := make([][]byte, len(m.Args))
+	for i := range m.Args {
+		args[i] = append([]byte{}, m.Args[i]...)
+	}
+	return u.N.Exec(node.Call{Func: m.Func, Caller: caller, Recipient: rcv, Args: args, Gas: gen.BigGas, CallType: vmcommon.CallType(r.Intn(4))})
+}
+
 // Step executes one random step; returns the leg (nil when the chosen op was not applicable).
 func (w *Walk) Step() *node.Leg {
 	r := w.R
 	if r.Chance(w.O.Hostile) {
+		if r.Chance(15) {
+			return w.opForge()
+		}
 		return w.opHostile()
+	}
+	if w.O.Reconfigure && r.Chance(3) {
+		w.reconfigure()
+		return nil
 	}
 	x := r.Intn(100)
 	switch {
